@@ -13,7 +13,8 @@ DECIDED = ("lockset/ownership premises that make `std::sync::Mutex` give exclusi
            "constructor; R4.4 every public function that reaches a code write or an unmap holds `&mut` injector through its receiver, whose "
            "type is only built inside `&mut self` methods of the injector; R4.5 the injector's restore guards are gone before its MutexGuard "
            "is dropped; R4.6 nothing but the constructions mentions the MutexGuard field; R4.7 the restore guard's destructor restores on every returning "
-           "path (no edge, e.g. std::thread::panicking(), on which the lock is handed over with the patch still in place)")
+           "path (no edge, e.g. std::thread::panicking(), on which the lock is handed over with the patch still in place); R4.8 every installation that takes a "
+           "call-count verifier resets the counter before its first effect, so the previous holder's calls are never charged to the next one")
 NOT_DECIDED = "scheduler fairness beyond 'the guard is released on every exit' (that is the OS mutex)"
 
 MUTEXGUARD = "std::sync::MutexGuard"
@@ -260,6 +261,10 @@ def run(ck, models, tier):
                 ck.ob("R4.6", "%s/lock-field-touched/%s" % (short(adt), short(fn)), tm.target, False,
                       "%s mentions %s.%s outside its construction: the guard could be moved out, replaced or dropped early" % (fn, short(adt), fname))
         ck.ob("R4.6", "lock-field-untouched", tm.target, n_touch == 0, "%d mention(s) of a MutexGuard field outside constructions" % n_touch)
+        # ---------------- R4.8 "observes exactly its own fakes": what the previous holder did to a shared call counter is not charged to the next
+        # one - every installation that takes a verifier resets the counter before its first effect (C07 R7.1, library part)
+        from .c07 import install_resets_counter
+        install_resets_counter(ck, tm, "R4.8")
     scans.control(ck, ck.ws, "R4.1", "try_lock-call", scans.try_lock_sites)
 
     def stolen(f):
